@@ -157,8 +157,14 @@ class ToolchainGen:
             self.emit("install_dirs(prefix={!r})".format(
                 os.path.join(self.w.root, 'tcprefix')))
             self.used.add('install_dirs')
-        if self.rng.random() < 0.2:
-            self.emit("target_platform('linux')")
+        self.cross = False
+        if self.rng.random() < 0.25:
+            if self.rng.random() < 0.5:
+                self.emit("target_platform('linux')")
+            else:
+                # another architecture: a cross build
+                self.emit("target_platform('linux', 'i686')")
+                self.cross = True
             self.used.add('target_platform')
         return '# toolchain generated by bfgsim\n' + \
             '\n'.join(self.lines) + '\n'
@@ -408,6 +414,12 @@ def gen_scenario(seed, root, params):
         proj.toolchain = 'toolchain.bfg'
         proj.files['toolchain.bfg'] = text
         proj.tc_relative = rng.random() < 0.4
+        if tg.cross and 'install_dirs' not in used and \
+           not any(a.startswith(('--prefix', '--libdir'))
+                   for a in proj.conf_args) and rng.random() < 0.7:
+            # a cross build without any install directory: installation is
+            # switched off, and must stay so
+            proj.no_prefix = True
     later = []
     for i in range(params.get('later', 4)):
         amb, labels = perturb(rng, env, w)
